@@ -18,6 +18,7 @@ EXPLANATION = (
     "is assumed from determinism of the callee set."
     ' (R5) in Interpreter::step every whole-plan solve() sits in the plan traversal nested inside the step-counter loop, in every branch.'
     ' (R6) a sequence collected while iterating a hash-ordered field of a value (MechTable::col_names, MechRecord::field_names ...) is never used position-wise.'
+    " (R2, extended) a solve body that hands its output cell `&mut` to a method other than nalgebra's write-only `*_to` family transforms it in place: the previous evaluation's value feeds the next one."
 )
 CRATES = X.FXN_CRATES
 NONDET = re.compile(r"^std::time::|^rand::|^rand_core::|^getrandom::|^std::env::|SystemTime|Instant::now|thread_rng|^std::process::id")
